@@ -22,11 +22,13 @@ pub struct TxP {
     pub prev_index: u32,
     pub locktime: u32,
     pub value: u64,
+    /// see refmodel::ser::Tx::wide (CompactSize fields stored wider than necessary)
+    pub wide: u8,
 }
 
 impl TxP {
     pub fn base() -> TxP {
-        TxP { version: 1, segwit: false, sig_lens: vec![1], spk_lens: vec![25], wit: vec![], sequence: 0xffff_fffe, prev_index: 0, locktime: 0, value: 1000 }
+        TxP { version: 1, segwit: false, sig_lens: vec![1], spk_lens: vec![25], wit: vec![], sequence: 0xffff_fffe, prev_index: 0, locktime: 0, value: 1000, wide: 0 }
     }
     pub fn build(&self, seed: u8) -> Tx {
         let spk = |n: usize, k: usize| -> Vec<u8> {
@@ -47,7 +49,7 @@ impl TxP {
             })
             .collect();
         let outputs = self.spk_lens.iter().enumerate().map(|(k, l)| TxOut { value: self.value.wrapping_add(k as u64), script: spk(*l, k) }).collect();
-        Tx { version: self.version, segwit: self.segwit, inputs, outputs, locktime: self.locktime }
+        Tx { version: self.version, segwit: self.segwit, inputs, outputs, locktime: self.locktime, wide: self.wide }
     }
 }
 
@@ -102,7 +104,7 @@ fn ground_chain(coin: &'static Coin) -> ChainBuilder {
         }
         tx
     };
-    let mk = |k: u8, prev: [u8; 32], idx: u32, values: Vec<u64>| Tx { version: 1, segwit: false, inputs: vec![TxIn { prev_txid: prev, prev_index: idx, script_sig: vec![0x51; 2], sequence: 0x8000_0000 | k as u32, witness: vec![] }], outputs: values.into_iter().enumerate().map(|(i, v)| TxOut { value: v, script: script::p2pkh(&script::h20(k.wrapping_mul(7).wrapping_add(i as u8))) }).collect(), locktime: 0 };
+    let mk = |k: u8, prev: [u8; 32], idx: u32, values: Vec<u64>| Tx { version: 1, segwit: false, inputs: vec![TxIn { prev_txid: prev, prev_index: idx, script_sig: vec![0x51; 2], sequence: 0x8000_0000 | k as u32, witness: vec![] }], outputs: values.into_iter().enumerate().map(|(i, v)| TxOut { value: v, script: script::p2pkh(&script::h20(k.wrapping_mul(7).wrapping_add(i as u8))) }).collect(), locktime: 0, wide: 0 };
     let mut one = [0u8; 32];
     one[31] = 1;
     let mut txs = vec![coinbase(1, 1, vec![pay(9, 50 * COIN_VALUE)])];
@@ -307,12 +309,29 @@ pub fn run() -> Report {
         p.value = val;
         cases.push(Case { coin: "bitcoin", verify: true, txs: vec![p], hdr: None, n_blocks: 3, label: format!("value={:#x}", val) });
     }
+    // counts and lengths stored in a wider CompactSize form than they need (fd / fe / ff prefix), all four kinds at once and
+    // one kind at a time: the fields decode to the same values, txid and merkle root are those of the bytes as stored
+    for coin in ["bitcoin", "litecoin"] {
+        for width in 1..=3u8 {
+            for fields in [0u8, 1, 2, 4, 8] {
+                for segwit in [false, true] {
+                    let mut p = TxP::base();
+                    p.wide = width | (fields << 2);
+                    p.segwit = segwit;
+                    p.sig_lens = vec![2, 0];
+                    p.spk_lens = vec![25, 3];
+                    p.wit = vec![vec![1], vec![]];
+                    cases.push(Case { coin, verify: true, txs: vec![TxP::base(), p, TxP::base()], hdr: None, n_blocks: 3, label: format!("wide-compactsize w{} f{} segwit={}", width, fields, segwit) });
+                }
+            }
+        }
+    }
     for coin in ["bitcoin", "litecoin", "dogecoin"] {
         for verify in [false, true] {
             cases.push(Case { coin, verify, txs: vec![], hdr: None, n_blocks: 4, label: "ground-patterns".into() });
         }
     }
-    rep.rule = "product of the core tx-shape alphabet (segwit x n_in x n_out x |scriptSig| x |scriptPubKey| x witness-stack shape) as 2nd tx of the middle block, ordered shape pairs in one block, one-dimension CompactSize boundary sweeps (0xfc,0xfd,0xfe,0xffff,0x10000) for 7 count/length dimensions, u32/u64 field value sweeps; a chain of ground byte patterns (txids / block hashes beginning or ending with 00, 0000, ff, the bytes of ; \" , and line feed, previous-output hashes of all 00 / ff, values 0, 1, equal, 2^63, 2^64-1, top-bit-set sequence numbers and block time); x coins x --verify; non-trivial = distinct case whose run wrote at least 2 block rows".into();
+    rep.rule = "product of the core tx-shape alphabet (segwit x n_in x n_out x |scriptSig| x |scriptPubKey| x witness-stack shape) as 2nd tx of the middle block, ordered shape pairs in one block, one-dimension CompactSize boundary sweeps (0xfc,0xfd,0xfe,0xffff,0x10000) for 7 count/length dimensions, u32/u64 field value sweeps; counts and lengths stored in wider CompactSize forms than needed (3 widths x {all, input count, output count, scriptSig length, scriptPubKey length} x legacy/segwit); a chain of ground byte patterns (txids / block hashes beginning or ending with 00, 0000, ff, the bytes of ; \" , and line feed, previous-output hashes of all 00 / ff, values 0, 1, equal, 2^63, 2^64-1, top-bit-set sequence numbers and block time); x coins x --verify; non-trivial = distinct case whose run wrote at least 2 block rows".into();
     rep.bound = json!({"cases": cases.len(), "product_coins": prod_coins, "blocks": "2..4", "max_count": "0x10000", "max_item_bytes": 2621440});
     rep.not_covered = vec!["counts >= 2^32 (9-byte CompactSize)".into(), "non-canonical CompactSize encodings (consensus-invalid, excluded by design)".into(), "tx/block versions >= 2^31".into()];
     let root = refmodel::world::scratch_root();
@@ -324,7 +343,15 @@ pub fn run() -> Report {
             let cn = coin(c.coin);
             let (chain, start) = build_chain(c, cn);
             // every other case spread over two blk files (height order leaves a file and returns to the adjacent block)
-            let world = World::laid_out(cn, &chain.blocks, 0, i);
+            let mut world = World::laid_out(cn, &chain.blocks, 0, i);
+            // every fifth case in an obfuscated directory; the keys carry particular byte values (a zero byte, 0xff, a lone 1)
+            if i % 5 == 2 {
+                world.xor_key = Some(match (i / 5) % 3 {
+                    0 => vec![0x5a, 0x31, 0x13, 0x00, 0x88, 0x9e, 0x21, 0xf4],
+                    1 => vec![0xff; 8],
+                    _ => vec![0, 0, 0, 0, 0, 0, 0, 1],
+                });
+            }
             let spec = RunSpec::new(c.coin, "csvdump").verify(c.verify).range(start, None);
             let r = match wk.world_run(&world, &spec) {
                 Ok(r) => r,
